@@ -330,7 +330,8 @@ def tval(v):
 
 def gen_format(ctx, rnd, out):
     """str.format and % interpolation: templates are concatenations of pieces; the oracle (Fmt.tla) parses the text itself"""
-    pieces = ["a", "b ", "{}", "{0}", "{1}", "{x}", "{y}", "{!r}", "{0!r}", "{x!s}", "{1!r}", "{{", "}}", "{", "}", "{:d}", "{!z}", "{0:}", "{ }"]
+    pieces = ["a", "b ", "{}", "{0}", "{1}", "{x}", "{y}", "{!r}", "{0!r}", "{x!s}", "{1!r}", "{{", "}}", "{", "}", "{:d}", "{!z}", "{0:}", "{ }", "{01}", "{000}",
+              "{18446744073709551616}", "{18446744073709551617!r}", "{4294967296}", "{9223372036854775808}", "{36893488147419103232}"]
     vals = [5, -12, "ab", None, 'q"t', [1, "s"], True, (3,)]
     maxp = 2 if ctx.quick else 3
     argsets = [[], [5], ["ab", -12], [None, [1, "s"]], ['q"t', (3,)]]
